@@ -66,7 +66,8 @@ func (c *Ctx) LockerInternals(prop string) {
 			work = work[:len(work)-1]
 			for _, ci := range Calls(f, func(ci ssa.CallInstruction) bool {
 				g := ci.Common().StaticCallee()
-				return g != nil && g.Blocks != nil && g.Signature.Recv() != nil && namedOf(g.Signature.Recv().Type()) == T && !ci.Common().IsInvoke()
+				// helpers of the locker's own package: same-receiver methods, methods of package-local helper types, functions
+				return g != nil && g.Blocks != nil && !ci.Common().IsInvoke() && prog.PkgPathOf(g) == prog.PkgPathOf(root)
 			}) {
 				g := ci.Common().StaticCallee()
 				if g == pre || g == post || unit[g] {
@@ -180,17 +181,43 @@ func (c *Ctx) LockerInternals(prop string) {
 		rule5 := "C04.O5 locker.same-mutex"
 		fn := lock
 		keyP := fn.Params[len(fn.Params)-1]
-		if len(finalLocks) != 1 || finalLocks[0].fn != lock {
-			c.R.Fail(rule5, Fn(fn), c.P.FuncPos(fn), fmt.Sprintf("expected exactly one key-mutex acquisition in Lock(key) itself, found %d in its unit", len(finalLocks)), "one Lock() of the mutex stored for the key", nil)
+		inLock := true
+		for _, fl := range finalLocks {
+			if fl.fn != lock {
+				inLock = false
+			}
+		}
+		if len(finalLocks) == 0 || !inLock {
+			c.R.Fail(rule5, Fn(fn), c.P.FuncPos(fn), fmt.Sprintf("expected the key-mutex acquisition(s) in Lock(key) itself, found %d in its unit", len(finalLocks)), "Lock() of the mutex stored for the key", nil)
 		} else {
 			fl := finalLocks[0].ci
-			// every return passes the acquisition
+			isFinal := func(i ssa.Instruction) bool {
+				for _, f2 := range finalLocks {
+					if f2.ci.(ssa.Instruction) == i {
+						return true
+					}
+				}
+				return false
+			}
+			// every return passes an acquisition, and no path performs two
 			if x, path := an.Cut(an.CutQuery{From: an.Entry(fn), Target: func(i ssa.Instruction) bool { _, ok := i.(*ssa.Return); return ok },
-				AcceptInstr: func(i ssa.Instruction) bool { return i == fl.(ssa.Instruction) }}); x != nil {
+				AcceptInstr: isFinal}); x != nil {
 				c.R.Fail(rule5, Fn(fn), c.Pos(x), "Lock(key) can return without having acquired the key's mutex", "every path acquires the key mutex", an.PathString(c.Pos, path))
 			}
+			for _, f2 := range finalLocks {
+				if x, _ := an.Cut(an.CutQuery{From: an.After(f2.ci), Target: isFinal}); x != nil {
+					c.R.Fail(rule5, Fn(fn), c.Pos(x), "Lock(key) can acquire a key mutex twice on one path (self-deadlock)", "one acquisition per call", nil)
+				}
+			}
 			ms := &mutexSrc{c: c, unit: unit, creation: fieldKeys}
-			if !ms.src(fn, fl.Common().Args[0], keyP, fl.(ssa.Instruction), 0) {
+			okAllSrc := true
+			for _, f2 := range finalLocks {
+				if !ms.src(fn, f2.ci.Common().Args[0], keyP, f2.ci.(ssa.Instruction), 0) {
+					okAllSrc = false
+					fl = f2.ci
+				}
+			}
+			if !okAllSrc {
 				c.R.Fail(rule5, Fn(fn), c.Pos(fl), "the mutex acquired is not the one stored in the map for this key: "+ms.why, "mutex = map[key] (loaded, or created and stored only when a re-check under the creation mutex finds it absent)", nil)
 			} else if w := ms.mapWriters(lock); w != "" {
 				c.R.Fail(rule5, Fn(fn), c.Pos(fl), "the mutex acquired is not the one stored in the map for this key: "+w, "only Lock(key) creates map entries, never replaces or deletes them", nil)
@@ -292,6 +319,21 @@ func (m *mutexSrc) src(fn *ssa.Function, v ssa.Value, kp ssa.Value, at ssa.Instr
 	case *ssa.Phi:
 		for i, e := range x.Edges {
 			pred := x.Block().Preds[i]
+			// the value may flow in over the very edge on which its `ok` companion is true: (v, ok) := get(key); if !ok { v = new }
+			if ex, isEx := e.(*ssa.Extract); isEx && ex.Index == 0 {
+				if c2, isCall := ex.Tuple.(*ssa.Call); isCall {
+					if a := edgeAtomTo(pred, x.Block()); a != nil && a.Op == "true" {
+						if e1, ok := a.LV.(*ssa.Extract); ok && e1.Tuple == ssa.Value(c2) && e1.Index == 1 {
+							if _, isMap := isSyncMapOp(c2); !isMap {
+								if !m.helperOk(c2, 0, kp, depth+1, true) {
+									return false
+								}
+								continue
+							}
+						}
+					}
+				}
+			}
 			if !m.src(fn, e, kp, pred.Instrs[len(pred.Instrs)-1], depth+1) {
 				return false
 			}
@@ -336,6 +378,15 @@ func (m *mutexSrc) src(fn *ssa.Function, v ssa.Value, kp ssa.Value, at ssa.Instr
 
 func (m *mutexSrc) helper(call *ssa.Call, idx int, kp ssa.Value, at ssa.Instruction, depth int) bool {
 	h := call.Call.StaticCallee()
+	if h == nil {
+		m.why = "unexpected source " + an.Term(call)
+		return false
+	}
+	return m.helperOk(call, idx, kp, depth, h.Signature.Results().Len() == 2 && guardedByOk(call, at))
+}
+
+func (m *mutexSrc) helperOk(call *ssa.Call, idx int, kp ssa.Value, depth int, onlyOk bool) bool {
+	h := call.Call.StaticCallee()
 	if h == nil || !m.unit[h] {
 		m.why = "unexpected source " + an.Term(call)
 		return false
@@ -345,7 +396,6 @@ func (m *mutexSrc) helper(call *ssa.Call, idx int, kp ssa.Value, at ssa.Instruct
 		m.why = "helper " + Fn(h) + " is not given this key"
 		return false
 	}
-	onlyOk := h.Signature.Results().Len() == 2 && guardedByOk(call, at)
 	n := 0
 	for _, ret := range an.Returns(h) {
 		if idx >= len(ret.Results) {
@@ -445,7 +495,12 @@ func (m *mutexSrc) freshStored(fn *ssa.Function, alloc *ssa.Alloc, kp ssa.Value)
 				continue
 			}
 			op, ok := isSyncMapOp(call)
-			if !ok || op != "Store" || !isKeyVal(call.Call.Args[1], kp) || call.Call.Args[2] != v {
+			if !ok {
+				// a unit helper that stores its (key, value) parameters into the map on every path: put(key, mutex)
+				if !m.storesParams(call, kp, v) {
+					continue
+				}
+			} else if op != "Store" || !isKeyVal(call.Call.Args[1], kp) || call.Call.Args[2] != v {
 				continue
 			}
 			for k := range m.creation {
@@ -468,6 +523,47 @@ func (m *mutexSrc) freshStored(fn *ssa.Function, alloc *ssa.Alloc, kp ssa.Value)
 	}
 	m.why = "the new mutex is not stored in the map"
 	return false
+}
+
+// storesParams: call hands (kp, v) to a unit helper that, on every path to its return, performs map.Store(key parameter,
+// value parameter).
+func (m *mutexSrc) storesParams(call *ssa.Call, kp ssa.Value, v ssa.Value) bool {
+	h := call.Call.StaticCallee()
+	if h == nil || !m.unit[h] || call.Call.IsInvoke() {
+		return false
+	}
+	var hk, hv ssa.Value
+	for i, a := range call.Call.Args {
+		if i >= len(h.Params) {
+			continue
+		}
+		if isKeyVal(a, kp) {
+			hk = h.Params[i]
+		}
+		if a == v {
+			hv = h.Params[i]
+		}
+	}
+	if hk == nil || hv == nil {
+		return false
+	}
+	isStore := func(i ssa.Instruction) bool {
+		c2, ok := i.(*ssa.Call)
+		if !ok {
+			return false
+		}
+		op, ok := isSyncMapOp(c2)
+		if !ok || op != "Store" || !isKeyVal(c2.Call.Args[1], hk) {
+			return false
+		}
+		val := c2.Call.Args[2]
+		if mi, ok := val.(*ssa.MakeInterface); ok {
+			val = mi.X
+		}
+		return val == hv
+	}
+	x, _ := an.Cut(an.CutQuery{From: an.Entry(h), Target: func(i ssa.Instruction) bool { _, ok := i.(*ssa.Return); return ok }, AcceptInstr: isStore})
+	return x == nil
 }
 
 // mapWriters: every modification of the key-mutex map is a Store of a *sync.Mutex inside Lock(key)'s unit.
